@@ -5,6 +5,7 @@ import (
 	"math"
 	"reflect"
 	"sort"
+	"strings"
 
 	at "github.com/DanielSvub/anytype"
 	"pgregory.net/rapid"
@@ -198,13 +199,13 @@ func slots(x any) any {
 	case at.List:
 		out := make([]any, v.Count())
 		for i := range out {
-			out[i] = [2]any{v.TypeOf(i), v.Get(i)}
+			out[i] = [2]any{v.TypeOf(i), ownString(v.Get(i))}
 		}
 		return out
 	case at.Object:
 		out := map[string]any{}
 		for _, k := range sortedKeys(v) {
-			out[k] = [2]any{v.TypeOf(k), v.Get(k)}
+			out[strings.Clone(k)] = [2]any{v.TypeOf(k), ownString(v.Get(k))}
 		}
 		if len(out) != v.Count() {
 			out["\x00count"] = v.Count()
@@ -219,15 +220,24 @@ func slots(x any) any {
 	case reflect.Slice:
 		out := make([]any, rv.Len())
 		for i := range out {
-			out[i] = rv.Index(i).Interface()
+			out[i] = ownString(rv.Index(i).Interface())
 		}
 		return out
 	case reflect.Map:
 		out := map[string]any{}
 		for _, k := range rv.MapKeys() {
-			out[k.String()] = rv.MapIndex(k).Interface()
+			out[strings.Clone(k.String())] = ownString(rv.MapIndex(k).Interface())
 		}
 		return out
+	}
+	return ownString(x)
+}
+
+// ownString copies the bytes of a string so that a snapshot cannot follow a later change of the
+// memory a returned string points into (a result built over a reused buffer).
+func ownString(x any) any {
+	if s, ok := x.(string); ok {
+		return strings.Clone(s)
 	}
 	return x
 }
@@ -261,13 +271,17 @@ func slotsEqual(a, b any) bool {
 	return ifaceEq(a, b)
 }
 
-// ifaceEq is == on interfaces that treats NaN-free floats normally and never panics.
+// ifaceEq is == on interfaces that never panics; two float64 NaNs count as equal.
 func ifaceEq(a, b any) (eq bool) {
 	defer func() {
 		if recover() != nil {
 			eq = false
 		}
 	}()
+	if x, ok := a.(float64); ok && x != x {
+		y, ok := b.(float64)
+		return ok && y != y // a NaN stays a NaN
+	}
 	return a == b
 }
 
@@ -622,6 +636,10 @@ func CheckC09(c *C09Case, st *Stats) error {
 	abortedAny := false
 	for i, d := range c.Derivs {
 		beforeR, beforeA := slots(r), slots(a)
+		beforeResults := make([]any, len(parts))
+		for j, q := range parts {
+			beforeResults[j] = slots(q.val)
+		}
 		var res any
 		p, panicked := catch(func() {
 			if c.ObjectMode {
@@ -653,6 +671,11 @@ func CheckC09(c *C09Case, st *Stats) error {
 		}
 		if !slotsEqual(beforeA, slots(a)) {
 			return errf("%s changed its argument: %s -> %s", d.Name, showSlots(beforeA), showSlots(slots(a)))
+		}
+		for j, q := range parts[2:] {
+			if !slotsEqual(beforeResults[j+2], slots(q.val)) {
+				return errf("the later derivation %s changed the earlier %s: %s -> %s", d.Name, q.name, showSlots(beforeResults[j+2]), showSlots(slots(q.val)))
+			}
 		}
 		// a result that IS one of the inputs does not own its storage
 		if res != nil {
@@ -724,6 +747,10 @@ func CheckC09(c *C09Case, st *Stats) error {
 		return errf("participants inconsistent after the mutations: %v %v", err1, err2)
 	}
 	twinR, twinA := Build(rs), Build(as)
+	beforeRederive := make([]any, len(parts))
+	for j, q := range parts {
+		beforeRederive[j] = slots(q.val)
+	}
 	for _, d := range c.Derivs {
 		if d.PanicAt > 0 {
 			continue // error path, exercised above
@@ -751,6 +778,11 @@ func CheckC09(c *C09Case, st *Stats) error {
 			return errf("after the mutation history %s gives %s, on a freshly built container with the same content it gives %s\n receiver now: %s", d.Name, clip(g, 300), clip(w, 300), rs.Show())
 		}
 		st.Count("rederived." + d.Name)
+		for j, q := range parts {
+			if !slotsEqual(beforeRederive[j], slots(q.val)) {
+				return errf("deriving %s once more (from the receiver and from an unrelated container with the same content) changed the earlier %s: %s -> %s", d.Name, q.name, showSlots(beforeRederive[j]), showSlots(slots(q.val)))
+			}
+		}
 	}
 	return nil
 }
@@ -765,6 +797,6 @@ func c09fp(name string, x any) string {
 
 func init() {
 	Register("C09",
-		"receiver and argument are built through a drawn history (constructor NewList/NewListFrom/NewListOf/Add-by-Add, 0-129 further Adds crossing capacity boundaries, Inserts, then 0-3 Pops and 0-2 Deletes so that length/capacity relations vary; the argument may be empty), then 1-2 derivations from the same receiver drawn from the full table (Concat incl. self, SubList, 6 Filter*, 9 Map* incl. MapAsync, Slice and the 6 typed slices, 4 Reduce*, String, FormatString, Equals, Contains, IndexOf; for objects Merge incl. self, Pluck, Keys, Values, Dict, 9 Map*, String, FormatString, Equals, Contains), then 1-8 top-level mutations (Add, Insert, Replace, Delete, Pop, Clear, Sort in domain, Reverse, Set, Unset; element assignment / append within capacity / delete for Go slices and maps) on any participant; one derivation in five has a callback that panics on its 1st-4th invocation (the harness recovers, as a caller would), after which inputs must be unchanged and every later mutation must still work. Oracle: top-level slot snapshots (scalar value or identity of the nested container per slot) of receiver and argument are unchanged by the derivation, and after every mutation every other participant's snapshot is unchanged. Non-trivial = at least one mutation of the receiver or a result after a derivation from a receiver with Pop/Delete or growth history, or with an empty argument, or in object mode. Distinct = distinct FNV-64a hash of the case JSON.",
+		"receiver and argument are built through a drawn history (constructor NewList/NewListFrom/NewListOf/Add-by-Add, 0-129 further Adds crossing capacity boundaries, Inserts, then 0-3 Pops and 0-2 Deletes so that length/capacity relations vary; the argument may be empty), then 1-2 derivations from the same receiver drawn from the full table (Concat incl. self, SubList, 6 Filter*, 9 Map* incl. MapAsync, Slice and the 6 typed slices, 4 Reduce*, String, FormatString, Equals, Contains, IndexOf; for objects Merge incl. self, Pluck, Keys, Values, Dict, 9 Map*, String, FormatString, Equals, Contains), then 1-8 top-level mutations (Add, Insert, Replace, Delete, Pop, Clear, Sort in domain, Reverse, Set, Unset; element assignment / append within capacity / delete for Go slices and maps) on any participant; one derivation in five has a callback that panics on its 1st-4th invocation (the harness recovers, as a caller would), after which inputs must be unchanged and every later mutation must still work. Oracle: top-level slot snapshots (scalar value or identity of the nested container per slot) of receiver and argument are unchanged by the derivation, and after every mutation every other participant's snapshot is unchanged; snapshots own their string bytes, and every later derivation (the second one, and the repeated ones at the end, also from an unrelated container) must leave every earlier result as it was. Non-trivial = at least one mutation of the receiver or a result after a derivation from a receiver with Pop/Delete or growth history, or with an empty argument, or in object mode. Distinct = distinct FNV-64a hash of the case JSON.",
 		GenC09, CheckC09)
 }
